@@ -560,8 +560,8 @@ func (u *Unit) havocHeaps(st *State, names []string, why string) {
 		if !ok {
 			continue
 		}
-		if strings.HasPrefix(n, "GC:") {
-			continue
+		if strings.HasPrefix(n, "GC:") || (strings.HasPrefix(n, "RV:") && why != "loop") {
+			continue // ghost state of map iterations is not touched by calls
 		}
 		st.heaps[n] = u.fresh("H_"+mangle(n), s)
 	}
